@@ -13,7 +13,17 @@ from harness.lib import Family, Verdict, call, deep_eq, drive, jval, strip_exc
 RULE = ("cases are drawn from random.Random(VERIF_SEED): shapes of order 1..4 (5 in thorough) with extents 1..4, "
         "index vectors with negative, boundary and out-of-range entries, every (N, M, dims|exclude_dims) "
         "combination for N<=3 (4 in thorough) valid and invalid, integer row matrices with repeated rows / "
-        "empty operands, matrix tuples with equal and unequal column counts; a case is non-trivial when it "
+        "empty operands, matrix tuples with equal and unequal column counts; plus two enumerated (not sampled) "
+        "streams: (a) shapes whose size is next to 2^31, 2^32, 2^53, 2^62 and 2^63-1 (one to 31 modes, with "
+        "singleton modes) with subscripts / linear indices at the extremes, at the stride boundaries, negative, "
+        "just out of range, round trips on indices sampled from the whole range, and index / subscript arrays of "
+        "dtype int32, int16, uint8 (int8, uint16, uint32 in thorough) on shapes with more than 2^31 cells and on "
+        "ordinary shapes; (b) row matrices of width "
+        "1..10 built by pattern from a (lo, hi) value pair taken from 0, 1, 2^k-1, 2^k (k in 8,10,16,31,32,40,62) and "
+        "large negative entries down to -2^63: the all-lo and all-hi rows together with rows that differ from "
+        "them only in the trailing / only in the leading one, two (three in thorough) columns, with repeats, "
+        "with empty operands and with the value span present only in the stacked operands; integers are "
+        "compared exactly (never through a double); a case is non-trivial when it "
         "is accepted by the implementation and has a non-empty answer; distinct = distinct case hash")
 ASSUMPTIONS = ["np.ravel_multi_index / np.unravel_index / np.unique / np.argsort / np.setdiff1d behave as the "
                "model primitives of the same name (exercised by this very correspondence)"]
@@ -21,13 +31,168 @@ ANCHORS = [('pyttb/pyttb_utils.py', 'tt_sub2ind'), ('pyttb/pyttb_utils.py', 'tt_
 EXHAUSTIVE = {"quick": False, "thorough": False}
 
 
-def cmp(case, impl, model, spec=None, tags=(), nontrivial=True):
+def cmp(case, impl, model, spec=None, tags=(), nontrivial=True, eq=deep_eq):
     impl_c = strip_exc(impl)
-    if spec is not None and not deep_eq(impl_c, spec):
+    if spec is not None and not eq(impl_c, spec):
         return Verdict("violation", "implementation differs from the specification", impl, model, spec, tags, nontrivial)
-    if not deep_eq(impl_c, model):
+    if not eq(impl_c, model):
         return Verdict("violation", "implementation differs from the (proved) model", impl, model, spec, tags, nontrivial)
     return Verdict("ok", "", impl, model, spec, tags, nontrivial)
+
+
+def exact_eq(a, b):
+    """Equality of canonical JSON values made of Python ints / bools / lists / dicts.  `deep_eq` falls back
+    to comparing numbers as doubles, which identifies 2^62 and 2^62+1; the index and row helpers return
+    integers only, so they are compared exactly."""
+    return a == b
+
+
+I64_MAX = 2 ** 63 - 1
+I64_MIN = -2 ** 63
+
+
+# ---- specification of the index maps on Python ints (no numpy, no fixed width) ---------------------------
+def spec_sub2ind(shape, subs):
+    out = []
+    for row in subs:
+        if len(row) != len(shape) or any(not (0 <= i < s) for i, s in zip(row, shape)):
+            return {"reject": True}
+        lin, stride = 0, 1
+        for i, s in zip(row, shape):
+            lin += i * stride
+            stride *= s
+        out.append(lin)
+    return {"ok": out}
+
+
+def spec_ind2sub(shape, idx):
+    n = gen.numel(shape)
+    out = []
+    for k in idx:
+        if k < 0:
+            k += n
+        if not (0 <= k < n):
+            return {"reject": True}
+        row = []
+        for s in shape:
+            k, r = divmod(k, s)
+            row.append(r)
+        out.append(row)
+    return {"ok": out}
+
+
+def big_shapes(tier):
+    """Shapes whose number of cells is next to 2^31, 2^32, 2^53, 2^62 (and the int64 limit 2^63-1): one mode,
+    two / three way splits with distinct non-power-of-two extents, singleton modes in every position, many
+    small modes.  Every shape has at most 2^63-1 cells (numpy rejects larger ones outright)."""
+    out = []
+    for e in (31, 32, 53, 62):
+        T = 2 ** e
+        out += [[T - 1], [T], [T + 1]]
+        for a in sorted({1, e // 2, e - 1, e // 3}):
+            b = e - a
+            out += [[2 ** a, 2 ** b], [2 ** a + 1, 2 ** b - 1], [2 ** b + 1, 2 ** a]]
+        a, b = e // 3, e // 4
+        c = e - a - b
+        out += [[2 ** a, 2 ** b + 1, 2 ** c - 1], [2 ** c + 1, 2 ** a - 1, 2 ** b],
+                [1, 2 ** a, 1, 2 ** (e - a)], [2 ** (e - a) + 1, 1, 2 ** a - 1, 1], [1, 1, T - 1], [T + 1, 1],
+                [3, T // 3], [T // 3 + 1, 3], [7, 5, T // 35], [T // 35 + 1, 5, 7]]
+    out += [[I64_MAX], [I64_MAX, 1], [1, I64_MAX], [2 ** 21, 2 ** 21, 2 ** 21 - 1], [2 ** 21 - 1, 2 ** 21, 2 ** 21],
+            [3, 2 ** 61], [2 ** 61, 3], [7, 7, 73, 127, 337, 92737, 649657],  # = 2^63-1
+            [4] * 31, [3] * 30 + [9], [2] * 30 + [2 ** 31, 2], [2 ** 32 - 1, 2 ** 31], [2 ** 31 - 1, 2 ** 32]]
+    if tier == "thorough":
+        for e in range(30, 63):
+            out += [[2 ** (e // 2) + 1, 2 ** (e - e // 2) - 1], [3, 2 ** e // 3, 1], [2 ** e - 1], [2 ** e + 1]]
+    seen, res = set(), []
+    for s in out:
+        if all(x >= 1 for x in s) and gen.numel(s) <= I64_MAX and tuple(s) not in seen:
+            seen.add(tuple(s))
+            res.append(s)
+    return res
+
+
+def big_index_cases(rng, tier):
+    """Enumerated extreme subscripts / linear indices of the big shapes + round trips on sampled ones."""
+    out = []
+    for s in big_shapes(tier):
+        n, N = gen.numel(s), len(s)
+        last = [x - 1 for x in s]
+        zero = [0] * N
+        subs = [zero, last]
+        modes = range(N) if N <= 4 else [0, 1, N // 2, N - 2, N - 1]
+        for k in modes:
+            subs.append([last[j] if j == k else 0 for j in range(N)])
+            subs.append([0 if j == k else last[j] for j in range(N)])
+            subs.append([max(last[j] - 1, 0) if j == k else last[j] for j in range(N)])
+            subs.append([min(1, last[j]) if j == k else 0 for j in range(N)])
+        out.append({"k": "sub2ind", "shape": s, "subs": subs})
+        out.append({"k": "rt_subs", "shape": s, "subs": subs})
+        # one subscript just outside, first / last mode (numpy must reject, never wrap)
+        for k in {0, N - 1}:
+            if s[k] <= I64_MAX - 1:
+                out.append({"k": "sub2ind", "shape": s, "subs": [zero, [s[j] if j == k else last[j] for j in range(N)]]})
+        strides, p = [], 1
+        for x in s:
+            strides.append(p)
+            p *= x
+        idx = {0, min(1, n - 1), n - 1, max(n - 2, 0), n // 2, n // 2 - 1 if n > 1 else 0, -1, -n, 1 - n if n > 1 else -1, -(n // 2) - 1}
+        for st in strides:
+            idx |= {st % n, (st - 1) % n, -(st % n) - 1}
+        for e in (31, 32, 53, 62):
+            for d in (-1, 0, 1):
+                if 0 <= 2 ** e + d < n:
+                    idx |= {2 ** e + d, 2 ** e + d - n}
+        idx = sorted(idx)
+        out.append({"k": "ind2sub", "shape": s, "idx": idx})
+        out.append({"k": "rt_idx", "shape": s, "idx": idx})
+        for bad in (n, -n - 1, n + 1):
+            if I64_MIN <= bad <= I64_MAX:
+                out.append({"k": "ind2sub", "shape": s, "idx": [0, bad]})
+        m = 6 if tier == "quick" else 24
+        samp = [rng.randrange(n) for _ in range(m)] + [-1 - rng.randrange(n) for _ in range(m // 2)]
+        out.append({"k": "rt_idx", "shape": s, "idx": samp})
+        out.append({"k": "rt_subs", "shape": s, "subs": [[rng.randrange(x) for x in s] for _ in range(m)]})
+    return out
+
+
+NARROW = {"int32": (-2 ** 31, 2 ** 31 - 1), "int16": (-2 ** 15, 2 ** 15 - 1), "uint8": (0, 255),
+          "int8": (-128, 127), "uint16": (0, 2 ** 16 - 1), "uint32": (0, 2 ** 32 - 1)}
+
+
+def narrow_index_cases(rng, tier):
+    """Index / subscript arrays of a narrow integer dtype (int32, int16, uint8; int8, uint16, uint32 in thorough)
+    on shapes with more than 2^31 cells (the size does not fit the dtype of the indices) and on ordinary shapes."""
+    out = []
+    dts = ["int32", "int16", "uint8"] + (["int8", "uint16", "uint32"] if tier == "thorough" else [])
+    big = [[2 ** 31 + 1], [2 ** 16, 2 ** 16 + 1], [70000, 70000], [2 ** 31 - 1, 2 ** 31 - 1, 2], [3, 2 ** 40, 5],
+           [1, 2 ** 62, 1], [I64_MAX], [200, 250, 255, 256, 1000], [2 ** 15, 2 ** 15 - 1, 2 ** 15 + 1, 7],
+           [128, 127, 129, 3, 2 ** 16 + 1]]
+    m = 4 if tier == "quick" else 16
+    for dt in dts:
+        lo, hi = NARROW[dt]
+        small = [gen.shape(rng, 1, 4, 4) for _ in range(8 if tier == "quick" else 60)]
+        for s in big + small:
+            n = gen.numel(s)
+            l, h = max(lo, -n), min(hi, n - 1)
+            idx = {0, min(1, h), h, max(h - 1, 0), h // 2}
+            if l < 0:
+                idx |= {-1, l, min(l + 1, -1), l // 2}
+            idx = sorted(idx) + [rng.randint(l, h) for _ in range(m)]
+            out.append({"k": "ind2sub", "shape": s, "idx": idx, "dtype": dt})
+            out.append({"k": "rt_idx", "shape": s, "idx": idx, "dtype": dt})
+            # just outside (where the dtype can hold it): must be rejected, not wrapped
+            for bad in (n, -n - 1):
+                if lo <= bad <= hi:
+                    out.append({"k": "ind2sub", "shape": s, "idx": [0, bad], "dtype": dt})
+            top = [min(x - 1, hi) for x in s]
+            subs = [[0] * len(s), top] + [[top[j] if j == k else 0 for j in range(len(s))] for k in range(len(s))]
+            subs += [[rng.randint(0, t) for t in top] for _ in range(m)]
+            out.append({"k": "sub2ind", "shape": s, "subs": subs, "dtype": dt})
+            out.append({"k": "rt_subs", "shape": s, "subs": subs, "dtype": dt})
+            k = rng.randrange(len(s))
+            if s[k] <= hi:
+                out.append({"k": "sub2ind", "shape": s, "subs": [[s[j] if j == k else 0 for j in range(len(s))]], "dtype": dt})
+    return out
 
 
 class Sub2Ind(Family):
@@ -60,20 +225,43 @@ class Sub2Ind(Family):
                 out.append({"k": "allsubs", "shape": s})
             else:
                 out.append({"k": "roundtrip", "shape": s})
+        # enumerated: shapes next to 2^31 / 2^32 / 2^53 / 2^62 / 2^63-1, extreme subscripts and indices
+        out += big_index_cases(rng, tier)
+        # index arrays of a narrow integer dtype on shapes whose size does not fit that dtype (and on ordinary ones)
+        out += narrow_index_cases(rng, tier)
         return out
 
     def evaluate(self, cases):
         reqs, impls = [], []
         for c in cases:
             s = tuple(c["shape"])
+            dt = np.dtype(c.get("dtype", "int64"))
             if c["k"] == "sub2ind":
-                subs = np.array(c["subs"], dtype=int).reshape(len(c["subs"]), len(s))
+                subs = np.array(c["subs"], dtype=dt).reshape(len(c["subs"]), len(s))
                 impls.append(call(lambda: jval(U.tt_sub2ind(s, subs.copy()))))
                 reqs.append({"op": "sub2ind", "shape": c["shape"], "subs": c["subs"]})
             elif c["k"] == "ind2sub":
-                idx = np.array(c["idx"], dtype=int)
+                idx = np.array(c["idx"], dtype=dt)
                 impls.append(call(lambda: jval(U.tt_ind2sub(s, idx.copy()))))
                 reqs.append({"op": "ind2sub", "shape": c["shape"], "idx": c["idx"]})
+            elif c["k"] == "rt_idx":
+                # linear indices -> subscripts -> linear indices (any size of shape)
+                idx = np.array(c["idx"], dtype=dt)
+
+                def rti():
+                    subs = U.tt_ind2sub(s, idx.copy())
+                    return {"subs": jval(subs), "back": jval(U.tt_sub2ind(s, subs))}
+                impls.append(call(rti))
+                reqs.append({"op": "ind2sub", "shape": c["shape"], "idx": c["idx"]})
+            elif c["k"] == "rt_subs":
+                # subscripts -> linear indices -> subscripts
+                subs = np.array(c["subs"], dtype=dt).reshape(len(c["subs"]), len(s))
+
+                def rts():
+                    lin = U.tt_sub2ind(s, subs.copy())
+                    return {"lin": jval(lin), "back": jval(U.tt_ind2sub(s, lin))}
+                impls.append(call(rts))
+                reqs.append({"op": "sub2ind", "shape": c["shape"], "subs": c["subs"]})
             elif c["k"] == "allsubs":
                 impls.append(call(lambda: jval(U.tt_ind2sub(s, np.arange(gen.numel(s))))))
                 reqs.append({"op": "allsubs", "shape": c["shape"]})
@@ -88,20 +276,41 @@ class Sub2Ind(Family):
         models = drive(reqs)
         out = []
         for c, impl, m in zip(cases, impls, models):
-            tags = [c["k"], f"N{len(c['shape'])}"]
+            n = gen.numel(c["shape"])
+            tags = [c["k"], f"N{len(c['shape'])}" if len(c["shape"]) <= 5 else "N>5", c.get("dtype", "int64")]
+            for e in (31, 32, 53, 62):
+                if n >= 2 ** e - 1:
+                    tags.append(f"cells>=2^{e}-1")
             if c["k"] == "roundtrip":
-                n = gen.numel(c["shape"])
                 ok = impl.get("ok") == list(range(n))
                 out.append(Verdict("ok" if ok else "violation",
                                    "" if ok else "sub2ind(ind2sub(0..n-1)) is not 0..n-1", impl, list(range(n)), None, tags))
                 continue
+            if c["k"] == "rt_idx":
+                sp = spec_ind2sub(c["shape"], c["idx"])
+                want = {"ok": {"subs": sp["ok"], "back": [k % n for k in c["idx"]]}} if "ok" in sp else sp
+                mm = {"ok": {"subs": m["ok"], "back": [k % n for k in c["idx"]]}} if "ok" in m else m
+                out.append(cmp(c, impl, mm, want, tags=tags, nontrivial="ok" in impl, eq=exact_eq))
+                continue
+            if c["k"] == "rt_subs":
+                sp = spec_sub2ind(c["shape"], c["subs"])
+                want = {"ok": {"lin": sp["ok"], "back": c["subs"]}} if "ok" in sp else sp
+                mm = {"ok": {"lin": m["ok"], "back": c["subs"]}} if "ok" in m else m
+                out.append(cmp(c, impl, mm, want, tags=tags, nontrivial="ok" in impl, eq=exact_eq))
+                continue
+            spec = None
             if c["k"] == "allsubs":
                 m = {"ok": m}
+                spec = {"ok": gen.all_subs(c["shape"])}
+            elif c["k"] == "sub2ind":
+                spec = spec_sub2ind(c["shape"], c["subs"])
+            elif c["k"] == "ind2sub":
+                spec = spec_ind2sub(c["shape"], c["idx"])
             if impl.get("reject"):
                 tags.append("reject")
             if "ok" in impl and isinstance(impl["ok"], list) and len(impl["ok"]) == 0:
                 impl = {"ok": []}
-            out.append(cmp(c, impl, m, tags=tags, nontrivial=("ok" in impl and len(impl["ok"]) > 0)))
+            out.append(cmp(c, impl, m, spec, tags=tags, nontrivial=("ok" in impl and len(impl["ok"]) > 0), eq=exact_eq))
         return out
 
     def shrink(self, case):
@@ -198,6 +407,112 @@ def _rows(rng, ncols, nmax, vmax, dup_share, vmin=0):
     return rows
 
 
+ROW_OPS = ("ismember", "intersect", "setdiff", "union")
+
+
+def row_profiles():
+    """(lo, hi) value pairs that the columns of a pattern matrix span: 0 / 1 .. 2^k-1 / 2^k, and large
+    negative entries down to the int64 limits."""
+    out = []
+    for k in (8, 10, 16, 31, 32, 40, 62):
+        out += [(0, 2 ** k - 1), (0, 2 ** k), (1, 2 ** k)]
+    out += [(-2 ** 8, 2 ** 8 - 1), (-2 ** 16, 0), (-2 ** 31, 2 ** 31 - 1), (-2 ** 32, 2 ** 31), (-2 ** 40, 1),
+            (-2 ** 62, 2 ** 62), (I64_MIN, I64_MAX), (I64_MIN, 0), (0, I64_MAX),
+            (-2 ** 62 - 1, -2 ** 62 + 2), (-2 ** 40, -2 ** 40 + 3)]
+    return out
+
+
+def row_patterns(w, lo, hi, t):
+    """Pairs (A, B) of w-column matrices over {lo, lo+1, hi-1, hi}: the all-lo row L and the all-hi row H
+    (so every column spans lo..hi) and rows that differ from L / H only in the t trailing ('suf') or only
+    in the t leading ('pre') columns.  Some of the variants are in both operands, some in one only."""
+    t = min(t, w)
+    mid = hi - 1 if hi - 1 > lo else lo
+    lo1 = lo + 1 if lo + 1 < hi else hi
+    L, H = [lo] * w, [hi] * w
+
+    def suf(base, v):
+        return base[:w - t] + [v] * t
+
+    def pre(base, v):
+        return [v] * t + base[t:]
+    out = []
+    for nm, f in (("suf", suf), ("pre", pre)):
+        A = [L, H, f(H, lo), f(H, mid), f(L, hi), f(L, lo1)]
+        B = [H, f(H, mid), L, f(L, mid), f(H, lo1)]
+        out.append((nm, A, B))
+        # the same with repeated rows in both operands (first / last occurrence differ)
+        out.append((nm + "+rep", [A[2], A[0]] + A + [A[3], A[2], A[1]], [B[1]] + B + [B[0], B[3], B[1]]))
+        # the value span is present only in the two operands together
+        out.append((nm + "+split", [L, f(L, lo1), f(L, hi), f(L, mid)], [H, f(H, mid), f(L, hi), f(H, lo), f(H, mid)]))
+    # mixed rows: alternating lo / hi, equal except in one end
+    alt = [lo if j % 2 == 0 else hi for j in range(w)]
+    alt2 = [hi if j % 2 == 0 else lo for j in range(w)]
+    out.append(("alt", [alt, suf(alt, mid), pre(alt2, lo1), alt2, L], [pre(alt, mid), alt2, suf(alt2, lo1), alt, H, alt2]))
+    # empty operands
+    full = [L, H, suf(H, mid), pre(H, mid), suf(H, mid)]
+    out.append(("emptyA", [], full))
+    out.append(("emptyB", full, []))
+    return out
+
+
+def pattern_row_cases(tier):
+    """Enumerated (not sampled): every width 1..10 x every value profile x every pattern x every operation."""
+    out, seen = [], set()
+    for w in range(1, 11):
+        for lo, hi in row_profiles():
+            for t in ((1, 2) if tier == "quick" else (1, 2, 3)):
+                if t > 1 and t >= w:
+                    continue
+                for nm, A, B in row_patterns(w, lo, hi, t):
+                    if tier == "quick" and t > 1 and nm not in ("suf", "pre", "suf+rep", "pre+rep"):
+                        continue
+                    key =(w, tuple(map(tuple, A)), tuple(map(tuple, B)))
+                    if key in seen:
+                        continue
+                    seen.add(key)
+                    for op in ROW_OPS:
+                        out.append({"k": op, "A": [list(r) for r in A], "B": [list(r) for r in B], "ncols": w})
+    return out
+
+
+SPECIAL_VALUES = sorted({v for k in (8, 16, 31, 32, 40, 62) for v in (2 ** k - 1, 2 ** k, -2 ** k, -2 ** k + 1)}
+                        | {0, 1, 2, -1, I64_MIN, I64_MAX, I64_MIN + 1, I64_MAX - 1})
+
+
+def random_wide_rows(rng):
+    """One sampled pair of wide matrices: rows are a base row with its leading or trailing columns replaced."""
+    w = rng.randint(1, 10)
+    pool = rng.sample(SPECIAL_VALUES, rng.randint(2, 5))
+    bases = [[rng.choice(pool) for _ in range(w)] for _ in range(rng.randint(1, 3))]
+
+    def variant():
+        r = list(rng.choice(bases))
+        t = rng.randint(0, min(3, w))
+        for j in range(t):
+            v = rng.choice(pool)
+            if rng.random() < 0.3:
+                v = max(I64_MIN, min(I64_MAX, v + rng.choice((-1, 1))))
+            r[j if rng.random() < 0.5 else w - 1 - j] = v
+        return r
+    A = [variant() for _ in range(rng.randint(0, 6))]
+    B = [variant() for _ in range(rng.randint(0, 6))]
+    for M in (A, B):
+        if M and rng.random() < 0.5:
+            for _ in range(rng.randint(1, 3)):
+                M.insert(rng.randint(0, len(M)), list(rng.choice(A + B)))
+    return {"k": rng.choice(ROW_OPS), "A": A, "B": B, "ncols": w}
+
+
+def span_product(rows, ncols):
+    """prod over columns of (max - min + 1): the number of cells of the bounding box of the rows."""
+    p = 1
+    for j in range(ncols):
+        col = [r[j] for r in rows]
+        p *= (max(col) - min(col) + 1) if col else 1
+    return p
+
+
 class Rows(Family):
     name = "rows"
     theorems = ("C17_ismember_spec", "C17_intersect_spec", "C17_setdiff_spec", "C17_union_spec")
@@ -212,12 +527,16 @@ class Rows(Family):
             vmin = rng.choice([0, 0, -1, -2, -3])
             A = _rows(rng, ncols, 6, vmax, 0.5, vmin)
             B = _rows(rng, ncols, 6, vmax, 0.5, vmin)
-            out.append({"k": rng.choice(["ismember", "intersect", "setdiff", "union"]), "A": A, "B": B, "ncols": ncols})
+            out.append({"k": rng.choice(list(ROW_OPS)), "A": A, "B": B, "ncols": ncols})
+        # enumerated: wide rows with large entries that differ only in the trailing / leading columns
+        out += pattern_row_cases(tier)
+        for _ in range(150 if tier == "quick" else 3000):
+            out.append(random_wide_rows(rng))
         return out
 
     @staticmethod
     def _arr(rows, ncols):
-        return np.array(rows, dtype=int).reshape(len(rows), ncols)
+        return np.array(rows, dtype=np.int64).reshape(len(rows), ncols)
 
     def evaluate(self, cases):
         impls, reqs = [], []
@@ -236,46 +555,66 @@ class Rows(Family):
                 impls.append(call(lambda A=A, B=B: jval(np.asarray(U.tt_setdiff_rows(A, B)).astype(int))))
                 reqs.append({"op": "setdiff", "A": c["A"], "B": c["B"]})
             else:
-                impls.append(call(lambda A=A, B=B: jval(np.asarray(U.tt_union_rows(A, B)).astype(int))))
+                def un(A=A, B=B):
+                    # no cast: the union of integer matrices must be an integer matrix (also with an empty operand)
+                    u = np.asarray(U.tt_union_rows(A, B))
+                    if not np.issubdtype(u.dtype, np.integer):
+                        return {"dtype": str(u.dtype), "rows": jval(u)}
+                    return jval(u)
+                impls.append(call(un))
                 reqs.append({"op": "union", "A": c["A"], "B": c["B"]})
         models = drive(reqs)
         out = []
         for c, impl, m in zip(cases, impls, models):
             A, B = [tuple(r) for r in c["A"]], [tuple(r) for r in c["B"]]
-            dupA = len(set(A)) != len(A)
+            setA, setB = set(A), set(B)
+            dupA = len(setA) != len(A)
             neg = any(v < 0 for r in A + B for v in r)
-            tags = [c["k"], "dupA" if dupA else "nodupA", "emptyA" if not A else "", "emptyB" if not B else "", "neg" if neg else "nonneg"]
+            big = max([abs(v) for r in A + B for v in r] or [0])
+            tags = [c["k"], "dupA" if dupA else "nodupA", "emptyA" if not A else "", "emptyB" if not B else "",
+                    "neg" if neg else "nonneg", "w>=5" if c["ncols"] >= 5 else "w<5",
+                    "big>=2^53" if big >= 2 ** 53 else ("big>=2^31" if big >= 2 ** 31 else "small"),
+                    "box>=2^63" if span_product(A + B, c["ncols"]) >= 2 ** 63 else "box<2^63"]
             tags = [t for t in tags if t]
-            # the set-algebra specification, computed independently here
+            # the set-algebra specification, computed independently here on tuples of Python ints
             spec = None
             if c["k"] == "intersect":
                 seen, spec_rows = set(), []
                 for r in B:
-                    if r in set(A) and r not in seen:
+                    if r in setA and r not in seen:
                         seen.add(r)
                         spec_rows.append(A.index(r))
                 spec = {"ok": spec_rows}
             elif c["k"] == "setdiff":
-                spec = {"ok": sorted({A.index(r) for r in A if r not in set(B)})}
+                spec = {"ok": sorted({A.index(r) for r in A if r not in setB})}
             elif c["k"] == "ismember":
-                spec = {"ok": {"matched": [r in set(B) for r in A],
-                               "loc": [max(i for i, b in enumerate(B) if b == r) if r in set(B) else -1 for r in A]}}
+                spec = {"ok": {"matched": [r in setB for r in A],
+                               "loc": [max(i for i, b in enumerate(B) if b == r) if r in setB else -1 for r in A]}}
             if c["k"] == "union" and "ok" in impl:
-                if (not A) or (not B):
-                    # np.empty-shaped placeholders of the empty operand: compare as sets of rows
-                    got = sorted(set(map(tuple, impl["ok"])))
-                    want = sorted(set(A) | set(B))
-                    ok = [list(r) for r in got] == [list(r) for r in want]
-                    out.append(Verdict("ok" if ok else "violation", "" if ok else "union with empty operand", impl, m, None, tags, False))
+                if isinstance(impl["ok"], dict):
+                    out.append(Verdict("violation", f"union of integer matrices has dtype {impl['ok']['dtype']} (entries beyond 2^53 "
+                                       "cannot be exact)", impl, m, None, tags))
+                    continue
+                got = [tuple(r) for r in impl["ok"]]
+                want = sorted(setA | setB)
+                # every row of A or B exactly once (C17_union_spec), also with an empty operand; then the model's order
+                if len(set(got)) != len(got) or sorted(got) != want:
+                    out.append(Verdict("violation", "union is not the set of rows of A or B, each once",
+                                       impl, m, [list(r) for r in want], tags))
                     continue
             out.append(cmp(c, impl, {"ok": m}, spec, tags=tags,
-                           nontrivial=("ok" in impl and bool(A) and bool(B))))
+                           nontrivial=("ok" in impl and bool(A) and bool(B)), eq=exact_eq))
         return out
 
     def shrink(self, case):
         for key in ("A", "B"):
             for i in range(len(case[key])):
                 yield {**case, key: case[key][:i] + case[key][i + 1:]}
+        # drop one column (keeps both operands aligned)
+        if case["ncols"] > 1:
+            for j in range(case["ncols"]):
+                yield {**case, "ncols": case["ncols"] - 1,
+                       "A": [r[:j] + r[j + 1:] for r in case["A"]], "B": [r[:j] + r[j + 1:] for r in case["B"]]}
 
 
 class KhatriRao(Family):
